@@ -22,9 +22,12 @@ use rust_rule_engine::backward::nested::NestedQueryParser;
 use rust_rule_engine::backward::query::QueryParser;
 use rust_rule_engine::engine::rule::ConditionGroup;
 use rust_rule_engine::expression::evaluate_expression;
-use rust_rule_engine::parser::grl::stream_syntax::parse_stream_pattern;
+use rust_rule_engine::parser::grl::stream_syntax::{
+    parse_duration, parse_join_condition, parse_stream_join_pattern, parse_stream_pattern, parse_stream_source,
+    parse_window_spec, parse_window_type, JoinCondition, StreamPattern, TemporalOp, WindowSpec, WindowType,
+};
 use rust_rule_engine::parser::grl::GRLParser;
-use rust_rule_engine::{ActionType, Facts, Value};
+use rust_rule_engine::{ActionType, Facts, RuleEngineError, Value};
 use std::io::{BufRead, Write};
 
 // ------------------------------------------------------------------------------------------------
@@ -66,9 +69,86 @@ fn hexlist(xs: &[String]) -> String {
     }
 }
 
+fn win(w: &WindowSpec) -> String {
+    let t = match w.window_type {
+        WindowType::Sliding => "s",
+        WindowType::Tumbling => "t",
+        _ => "o",
+    };
+    format!("{}{}", w.duration.as_millis(), t)
+}
+fn spat(p: &StreamPattern) -> String {
+    format!(
+        "{} {} {} {}",
+        hex(&p.var_name),
+        p.event_type.as_deref().map(hex).unwrap_or_else(|| "-".into()),
+        hex(&p.source.stream_name),
+        p.source.window.as_ref().map(win).unwrap_or_else(|| "-".into())
+    )
+}
+/// `ok <bytes left> <detail>` | `err` for a nom result
+fn nomres<T, E>(r: Result<(&str, T), E>, f: impl Fn(&T) -> String) -> String {
+    match r {
+        Ok((rest, v)) => format!("ok {} {}", rest.len(), f(&v)),
+        Err(_) => "err".into(),
+    }
+}
+fn hx0(s: &str) -> String {
+    if s.is_empty() { "-".into() } else { hex(s) }
+}
+
+pub const WRAP_PN: (&str, &str) = ("rule \"", "\" { when X == 1 then Y = 1; }");
+pub const WRAP_AC: (&str, &str) = ("rule \"r\" { when accumulate(", ") then Y = 1; }");
+pub const WRAP_MC: &str = "rule \"r\" { when X == 1 then Y = 1; }";
+pub const WRAP_AT: (&str, &str) = ("rule \"r\" ", " { when X == 1 then Y = 1; }");
 pub const WRAP_RV: (&str, &str) = ("rule \"r\" { when X == ", " then Y = 1; }");
 pub const WRAP_RA: (&str, &str) = ("rule \"r\" { when X == 1 then Y = ", "; }");
 pub const WRAP_W: (&str, &str) = ("rule \"r\" { when ", " then Y = 1; }");
+
+/// the fixed facts `evaluate_expression` is driven with (the driver's `vFacts` is the same table): flat keys,
+/// integer corner values, a float, a float zero, strings, a non-numeric variant
+fn v_facts() -> Facts {
+    let f = Facts::new();
+    f.set("Z", Value::Integer(0));
+    f.set("I", Value::Integer(7));
+    f.set("M", Value::Integer(i64::MIN));
+    f.set("MX", Value::Integer(i64::MAX));
+    f.set("N1", Value::Integer(-1));
+    f.set("F", Value::Number(2.5));
+    f.set("FZ", Value::Number(0.0));
+    f.set("S", Value::String("x".into()));
+    f.set("SN", Value::String("12".into()));
+    f.set("SZ", Value::String("0".into()));
+    f.set("B", Value::Boolean(true));
+    f.set("Order.quantity", Value::Integer(10));
+    f.set("Order.none", Value::Integer(0));
+    f
+}
+
+/// arithmetic corner operands for `evaluate_expression` (both streams)
+const ARITH_TOK: [&str; 56] = [
+    "% 0", "/ 0", "0 % 0", "0", "1", "7", "-1", "* -1", "+ 1", "- 1", "9223372036854775807", "9223372036854775808",
+    "-9223372036854775808", "1e308", "* 10", "1e308 * 10", "99999999999999999999999999999999999999", "0.0", "-0", "0e5", "00",
+    "1e-400", "0.000", ".0", "2.5", "inf", "NaN", "Z", "I", "M", "MX", "N1", "F", "FZ", "S", "SN", "SZ", "B", "Order.quantity",
+    "Order.none", "Nope", "%", "/", "*", "+", "-", " ", "\"3\"", "'0'", "\"x\"", "\"\"", "(", ")", "Z % Z", "M % N1", "M / N1",
+];
+const ARITH_OPERANDS: [&str; 22] = [
+    "0", "1", "7", "9223372036854775807", "9223372036854775808", "0.0", "2.5", "1e308", "Z", "I", "M", "MX", "N1", "F", "FZ", "S", "SN",
+    "SZ", "B", "Order.none", "\"0\"", "'a'",
+];
+fn arith(rng: &mut Rng) -> String {
+    match rng.below(3) {
+        0 => {
+            // a op b [op c]
+            let mut s = format!("{} {} {}", rng.pick(&ARITH_OPERANDS), rng.pick(&["+", "-", "*", "/", "%"]), rng.pick(&ARITH_OPERANDS));
+            if rng.chance(1, 2) {
+                s = format!("{} {} {}", s, rng.pick(&["+", "-", "*", "/", "%"]), rng.pick(&ARITH_OPERANDS));
+            }
+            s
+        }
+        _ => pick_soup(rng, &ARITH_TOK, 8, true),
+    }
+}
 
 /// every entry: the real code through its public API; returns the observation (panics propagate)
 fn run_entry(e: &str, s: &str) -> String {
@@ -98,17 +178,8 @@ fn run_entry(e: &str, s: &str) -> String {
             Ok(q) => format!("ok {}", hex(&q.goal)),
             Err(_) => "err".into(),
         },
-        "S" => match parse_stream_pattern(s) {
-            Ok((_, p)) => format!(
-                "ok {} {} {} {}",
-                hex(&p.var_name),
-                p.event_type.as_deref().map(hex).unwrap_or_else(|| "-".into()),
-                hex(&p.source.stream_name),
-                p.source.window.map(|w| format!("{}", w.duration.as_millis())).unwrap_or_else(|| "-".into())
-            ),
-            Err(_) => "err".into(),
-        },
-        "V" => match evaluate_expression(s, &Facts::new()) {
+        "S" => nomres(parse_stream_pattern(s), spat),
+        "V" => match evaluate_expression(s, &v_facts()) {
             Ok(_) => "ok".into(),
             Err(_) => "err".into(),
         },
@@ -161,13 +232,142 @@ fn run_entry(e: &str, s: &str) -> String {
             Ok(rs) => format!("ok {}", rs.len()),
             Err(_) => "err".into(),
         },
+        // ---- the stream-pattern grammar (nom): every public parser of stream_syntax.rs
+        "SJ" => nomres(parse_stream_join_pattern(s), |j| format!("{} {}", spat(&j.left), spat(&j.right))),
+        "SC" => nomres(parse_join_condition(s), |c| match c {
+            JoinCondition::Equality { left_field, right_field } => format!("eq {} {}", hex(left_field), hex(right_field)),
+            JoinCondition::Expression(e) => format!("ex {}", hex(e)),
+            JoinCondition::Temporal { operator, left_field, right_field } => format!(
+                "{} {} {}",
+                match operator {
+                    TemporalOp::Before => "before",
+                    TemporalOp::After => "after",
+                    TemporalOp::Within => "within",
+                },
+                hex(left_field),
+                hex(right_field)
+            ),
+        }),
+        "SD" => nomres(parse_duration(s), |d| format!("{}", d.as_millis())),
+        "SW" => nomres(parse_window_spec(s), win),
+        "SS" => nomres(parse_stream_source(s), |x| {
+            format!("{} {}", hex(&x.stream_name), x.window.as_ref().map(win).unwrap_or_else(|| "-".into()))
+        }),
+        "ST" => nomres(parse_window_type(s), |t| match t {
+            WindowType::Sliding => "s".to_string(),
+            WindowType::Tumbling => "t".to_string(),
+            _ => "o".to_string(),
+        }),
+        // ---- strip_comments -> mask_string_literals -> clean_text -> unmask, observed through the error
+        // message of parse_rule on a text that is not a rule ("Invalid GRL rule format. Input: <unmasked>")
+        "PU" => match GRLParser::parse_rule(s) {
+            Ok(r) => format!("ok {}", hx0(&r.name)),
+            Err(RuleEngineError::ParseError { message }) => format!("err {}", hx0(&message)),
+            Err(_) => "err other".into(),
+        },
+        // the rule name goes through mask (table entry) and unmask (table lookup)
+        "PN" => match GRLParser::parse_rule(&format!("{}{}{}", WRAP_PN.0, s, WRAP_PN.1)) {
+            Ok(r) => format!("ok {}", hx0(&r.name)),
+            Err(_) => "err".into(),
+        },
+        // parse_accumulate_condition / split_accumulate_parts / parse_accumulate_pattern / _function
+        "AC" => match GRLParser::parse_rules(&format!("{}{}{}", WRAP_AC.0, s, WRAP_AC.1)) {
+            Ok(rs) => match rs.first().map(|r| &r.conditions) {
+                Some(ConditionGroup::Accumulate { source_pattern, extract_field, source_conditions, function, function_arg, .. })
+                    if rs.len() == 1 =>
+                {
+                    format!(
+                        "ok {} {} {} {} {}",
+                        hx0(source_pattern),
+                        hx0(extract_field),
+                        hexlist(source_conditions),
+                        hx0(function),
+                        hx0(function_arg)
+                    )
+                }
+                _ => format!("ok other{}", rs.len()),
+            },
+            Err(_) => "err".into(),
+        },
+        // extract_module_from_context: <prefix> + one fixed rule through parse_with_modules
+        "MC" => match GRLParser::parse_with_modules(&format!("{}{}", s, WRAP_MC)) {
+            Ok(p) => {
+                let mut v: Vec<String> = p.rule_modules.iter().map(|(k, m)| format!("{}={}", hx0(k), hx0(m))).collect();
+                v.sort();
+                format!("ok {}", if v.is_empty() { "-".to_string() } else { v.join(",") })
+            }
+            Err(_) => "err".into(),
+        },
+        // parse_rule_attributes: the attribute section of a fixed rule
+        "AT" => match GRLParser::parse_rule(&format!("{}{}{}", WRAP_AT.0, s, WRAP_AT.1)) {
+            Ok(r) => format!("ok {}{}", r.no_loop as u8, r.lock_on_active as u8),
+            Err(_) => "err".into(),
+        },
         _ => "bad-entry".into(),
     }
 }
 
 const SEVEN: [&str; 7] = ["R", "M", "Q", "X", "G", "S", "V"];
 /// entries whose observation the Lean model predicts (see Driver/C05.lean)
-const MODELLED: [&str; 13] = ["X", "Q", "V", "D", "DC", "G", "GQ", "A", "NH", "NP", "RV", "RA", "S"];
+const MODELLED: [&str; 24] = [
+    "X", "Q", "V", "D", "DC", "G", "GQ", "A", "NH", "NP", "RV", "RA", "S", "SJ", "SC", "SD", "SW", "SS", "ST", "PU", "PN", "AC", "MC",
+    "AT",
+];
+
+fn pick_soup(rng: &mut Rng, toks: &[&str], max: u64, space: bool) -> String {
+    let mut s = String::new();
+    for _ in 0..rng.range(0, max) {
+        s.push_str(*rng.pick(toks));
+        if space && rng.chance(1, 3) {
+            s.push(' ');
+        }
+    }
+    s
+}
+
+/// text with placeholder-looking pieces (`U+0001 <digits> U+0002`), quotes, comments, line breaks
+const MASK_TOK: [&str; 40] = [
+    "\u{1}", "\u{2}", "0", "1", "2", "5", "+", "+0", "00", "99999999999999999999", "18446744073709551615", "18446744073709551616",
+    "\"", "'", "\n", "\r\n", "a", " ", "é", "日", "\u{a0}", "//", "/*", "*/", "/", "*", "\"ab\"", "'c'", "\"\"", "\u{1}0\u{2}", "\u{1}1\u{2}",
+    "\u{1}2\u{2}", "\u{1}\u{1}", "\u{1}x\u{2}", "x y", "\"é\u{1}\"", "'\u{1}0\u{2}'", "-", "\t", "\"//\"",
+];
+const ACC_TOK: [&str; 36] = [
+    "Order", "(", ")", ",", "$amount", ":", "amount", "status", "==", "\"completed\"", "'x,y'", "sum", "count", " ", "é", "日", "$", ">",
+    "<", "!=", ">=", "\"", "'", "\u{1}0\u{2}", "\u{1}", "a", "\u{a0}", "1", "()", "($a: a)", "sum($a)", "$é:", "\"a)b\"", "((", "))", ", ",
+];
+const ACC_BASE: [&str; 4] = [
+    "Order($amount: amount, status == \"completed\"), sum($amount)",
+    "Order($a: a), count()",
+    "Évén($x: é, y > 1, z != 'q,r'), average($x)",
+    " T ( $v : f , g <= 2 ) , min( $v ) ",
+];
+const MC_TOK: [&str; 18] = [
+    ";; MODULE:", ";; MODULE: ", ";;", "MODULE:", " ", "\n", "SENSORS", "- x", "é", "日", "\u{a0}", "A", ";", ":", "\t", "\u{1}", "\r", "\u{3000}",
+];
+const AT_TOK: [&str; 22] = [
+    "no-loop", "lock-on-active", "rule", "rule x", "salience 5", "agenda-group \"g\"", "\"no-loop\"", "x", "-", " ", "_", "é", "\"",
+    "activation-group \"a b\"", "no-loop1", "xno-loop", "rulelock-on-active", "no-loop-", "\"rule\"", "true", "lock-on-active,", "\u{1}0\u{2}",
+];
+const STREAM_TOK: [&str; 30] = [
+    "ev", ":", " ", "T", "from", "stream", "(", ")", "\"", "s", "over", "window", ",", "5", "min", "hours", "ms", "sliding", "tumbling",
+    "18446744073709551615", "307445734561825861", "é", "\u{a0}", "sec", "\n", "_", "99999999999999999999", "&&", "\t", "from stream(\"s\")",
+];
+const DUR_TOK: [&str; 24] = [
+    "5", " ", "min", "ms", "hours", "hour", "sec", "seconds", "minutes", "milliseconds", "18446744073709551615", "18446744073709551616",
+    "307445734561825860", "307445734561825861", "5124095576030431", "5124095576030432", "x", "é", "\t", "0", "007", "\n", "Min", "٣",
+];
+const JOIN_TOK: [&str; 20] = [
+    "a", ".", "b", "time", "==", "!=", "<=", ">=", "<", ">", " ", "_", "é", "1", "x.y", "ts.time", "=", "\t", "٣", "a.b",
+];
+const STREAM_BASE: [&str; 6] = [
+    "event: EventType from stream(\"events\") over window(5 min, sliding)",
+    "reading : T from stream( \"s\" ) over window(18446744073709551615 hours, tumbling)",
+    "e: from stream(\"x\")",
+    "é٣_: Ünï from stream(\"日 本\")over window(307445734561825860 min,tumbling) tail",
+    "a: A from stream(\"s\") over window(1 ms, sliding) && b: B from stream(\"t\")",
+    "  from   stream  (  \"sensor-data\"  )  over window( 30 seconds , sliding ) ",
+];
+
 
 fn cls_of(s: &str) -> String {
     let mut cs: Vec<char> = s.chars().filter(|c| !c.is_ascii()).collect();
@@ -347,18 +547,31 @@ fn cap_when_leaves(s: &str) -> String {
     let (head, tail) = s.split_at(w + 4);
     let mut out = String::from(head);
     let mut run = 0usize;
+    let mut depth = 0i64; // `&&` / `||` split a when clause only at parenthesis depth 0 (split_logical_operator)
     let mut rest = tail;
     while let Some(c) = rest.chars().next() {
         let sep = ["&&", "||", "then", "}", ";"].iter().find(|p| rest.starts_with(**p));
         if let Some(p) = sep {
             out.push_str(p);
             rest = &rest[p.len()..];
-            run = 0;
+            if depth == 0 || !(*p == "&&" || *p == "||") {
+                run = 0;
+                if !(*p == "&&" || *p == "||") {
+                    depth = 0;
+                }
+            } else {
+                run += p.len();
+            }
             continue;
         }
         if run + c.len_utf8() <= WHEN_LEAF_CAP {
             out.push(c);
             run += c.len_utf8();
+            if c == '(' {
+                depth += 1;
+            } else if c == ')' {
+                depth -= 1;
+            }
         }
         rest = &rest[c.len_utf8()..];
     }
@@ -367,6 +580,12 @@ fn cap_when_leaves(s: &str) -> String {
 
 /// one string of the robustness stream (search): raw / soup / mutated valid / chains
 fn robust_string(rng: &mut Rng) -> (String, &'static str) {
+    if rng.chance(1, 12) {
+        return (arith(rng), "arith");
+    }
+    if rng.chance(1, 16) {
+        return (pick_soup(rng, &MASK_TOK, 14, false), "masktext");
+    }
     match rng.below(10) {
         0 | 1 => (raw_lossy(rng), "raw"),
         2 | 3 => (soup(rng, &GRL_TOK, 40), "soup"),
@@ -415,30 +634,7 @@ fn value_payload(rng: &mut Rng) -> String {
     while s.contains("//") || s.contains("/*") {
         s = s.replace("//", "/ /").replace("/*", "/ *");
     }
-    // Since the literal-masking repair (d181cbd) the BODY of a complete '…' / "…" literal is hidden from the value
-    // classifier. The RV/RA entry models do not go through the masker yet, so bodies of complete literals are
-    // kept to letters here (letters, including multi-byte ones, classify the same hidden or visible); the masker
-    // itself is exercised by the GRL-level entries and the robustness search.
-    let cs: Vec<char> = s.chars().collect();
-    let mut out = String::new();
-    let mut i = 0;
-    while i < cs.len() {
-        let c = cs[i];
-        if c == '"' || c == '\'' {
-            if let Some(j) = (i + 1..cs.len()).find(|&j| cs[j] == c) {
-                out.push(c);
-                for &b in &cs[i + 1..j] {
-                    out.push(if b.is_alphabetic() { b } else { 'x' });
-                }
-                out.push(c);
-                i = j + 1;
-                continue;
-            }
-        }
-        out.push(c);
-        i += 1;
-    }
-    out
+    s
 }
 
 fn gen(rng: &mut Rng, n: usize, _tier: &str) -> Vec<String> {
@@ -459,9 +655,34 @@ fn gen(rng: &mut Rng, n: usize, _tier: &str) -> Vec<String> {
         }
         frontier = next;
     }
+    // every `a op b` over the arithmetic corner operands (zero divisors, i64 extremes, floats, strings, facts)
+    for a in ARITH_OPERANDS {
+        for op in ["+", "-", "*", "/", "%"] {
+            for b in ARITH_OPERANDS {
+                out.push(mk_case("V", &format!("{} {} {}", a, op, b)));
+            }
+        }
+    }
+    // exhaustive short strings for the text layer: placeholder-looking text, and comment/quote markers
+    for (alpha, len) in [(["\u{1}", "\u{2}", "0", "\"", "a", "\n"], 4usize), (["/", "*", "\"", "\n", "a", "'"], 4usize)] {
+        let mut frontier: Vec<String> = vec![String::new()];
+        for _ in 0..len {
+            let mut next = Vec::new();
+            for s in &frontier {
+                for a in alpha {
+                    next.push(format!("{}{}", s, a));
+                }
+            }
+            for s in &next {
+                out.push(mk_case("PU", s));
+            }
+            frontier = next;
+        }
+    }
     for _ in 0..n {
         let e = *rng.pick(&MODELLED);
         let s = match e {
+            "V" if rng.chance(1, 2) => arith(rng),
             "X" | "Q" | "V" => match rng.below(6) {
                 0 => chain(rng),
                 1 => mutate(rng, "User.IsVIP == true && (Order.Amount > 1000 || !(X != \"a\\\"b\"))", &EXPR_TOK),
@@ -513,7 +734,7 @@ fn gen(rng: &mut Rng, n: usize, _tier: &str) -> Vec<String> {
                 }
             },
             "S" => match rng.below(3) {
-                0 => { let b = *rng.pick(&VALID_MISC[5..7]); mutate(rng, b, &EXPR_TOK) },
+                0 => { let b = *rng.pick(&STREAM_BASE); mutate(rng, b, &STREAM_TOK) },
                 _ => {
                     let mut s = String::new();
                     for _ in 0..rng.range(0, 14) {
@@ -528,6 +749,29 @@ fn gen(rng: &mut Rng, n: usize, _tier: &str) -> Vec<String> {
                     s
                 }
             },
+            "SJ" | "SS" | "SW" => match rng.below(3) {
+                0 => {
+                    let b = *rng.pick(&STREAM_BASE);
+                    let b = if e == "SS" { b.split_once("from").map(|x| format!("from{}", x.1)).unwrap_or_default() }
+                        else if e == "SW" { b.split_once("over").map(|x| format!("over{}", x.1)).unwrap_or_default() }
+                        else { b.to_string() };
+                    mutate(rng, &b, &STREAM_TOK)
+                }
+                _ => pick_soup(rng, &STREAM_TOK, 16, true),
+            },
+            "SD" | "ST" => pick_soup(rng, if e == "SD" { &DUR_TOK } else { &["sliding", "tumbling", "s", " ", "é", "Sliding", "1", "x"] }, 5, false),
+            "SC" => match rng.below(4) {
+                0 => mutate(rng, "click.user_id == purchase.user_id", &JOIN_TOK),
+                1 => mutate(rng, "purchase.timestamp > click.timestamp", &JOIN_TOK),
+                _ => pick_soup(rng, &JOIN_TOK, 10, false),
+            },
+            "PU" | "PN" => pick_soup(rng, &MASK_TOK, if e == "PU" { 12 } else { 6 }, false),
+            "AC" => match rng.below(3) {
+                0 => { let b = *rng.pick(&ACC_BASE); mutate(rng, b, &ACC_TOK) },
+                _ => pick_soup(rng, &ACC_TOK, 12, false),
+            },
+            "MC" => pick_soup(rng, &MC_TOK, 10, false),
+            "AT" => pick_soup(rng, &AT_TOK, 6, true),
             _ => value_payload(rng), // RV, RA
         };
         out.push(mk_case(e, &s));
